@@ -11,9 +11,10 @@ V, I, S = A.Var, A.Int, A.Str
 # (source spelling, decoded text)
 PIECES = [("a", "a"), (" ", " "), ("é", "é"), ("✓", "✓"), ("😀", "😀"), ("\\\\", "\\"), ('\\"', '"'), ("\\$", "$"), ("\\n", "\n"),
           ("\\r", "\r"), ("\\x41", "A"), ("\\x00", "\x00"), ("\\x7f", "\x7f"), ("\\x7F", "\x7f"), ("\\x0a", "\n"), ("\\x24", "$"), ("\\x22", '"'),
-          ("{", "{"), ("}", "}"), ("#", "#"), (";", ";"), ("\t", "\t"), ("'", "'"), ("\\x5c", "\\"), ("0", "0"), ("\n", "\n")]
+          ("{", "{"), ("}", "}"), ("#", "#"), (";", ";"), ("\t", "\t"), ("'", "'"), ("\\x5c", "\\"), ("0", "0"), ("\n", "\n"),
+          ("\r\n", "\r\n"), ("\r", "\r"), ("é\n", "é\n")]          # raw line breaks inside the literal: LF, CR LF, lone CR, after a multi-byte character
 TEXT = [("", ""), ("a", "a"), ("é", "é"), ("✓ ", "✓ "), ("😀", "😀"), ("x=", "x="), ("\\$", "$"), ("\\\\", "\\"), ('\\"', '"'), ("{", "{"), ("}", "}"),
-        ("\\n", "\n"), ("é✓😀é", "é✓😀é"), ("# ;", "# ;"), ("\\x41", "A")]
+        ("\\n", "\n"), ("é✓😀é", "é✓😀é"), ("# ;", "# ;"), ("\\x41", "A"), ("é✓\n", "é✓\n"), ("\n", "\n"), ("x\r\ny", "x\r\ny")]      # the last three: raw line breaks inside an interpolated literal
 
 
 def lines_of(s):
